@@ -23,7 +23,7 @@ def module_text(seed, n=25):
 
 
 TREES = {
-    "treeA": {"x.cmake": 11, "b.cmake": 12, "a_gen.cmake": 18, "keep_gen.cmake": 19, "sub/c_gen.cmake": 20, "sub/y.cmake": 13, "sub/Z.CMAKE": 14, "sub/z2.cmake": 15, "sub/deep/w.cmake": 16, "sub/notes.txt": None, "aa/q.cmake": 17},
+    "treeA": {"x.cmake": 11, "b.cmake": 12, "a_gen.cmake": 18, "keep_gen.cmake": 19, "sub/c_gen.cmake": 20, "sub/y.cmake": 13, "sub/Y.cmake": 23, "sub/Z.CMAKE": 14, "sub/z2.cmake": 15, "sub/deep/w.cmake": 16, "sub/notes.txt": None, "aa/q.cmake": 17},
     "treeB": {"m.cmake": 21, "k/n.cmake": 22},
     "flat": {"f1.cmake": 31, "f2.cmake": 32},
 }
@@ -43,6 +43,15 @@ def materialise(root):
             fh.write(module_text(seed))
     with open(os.path.join(root, "broken.cmake"), "w") as fh:
         fh.write("function(f a)\nmessage(\"unterminated\nendfunction()\n(\n")
+    # symbolic links with other names than their targets; a tree whose top directory holds a broken file
+    if not os.path.lexists(os.path.join(root, "linkA")):
+        os.symlink("treeA", os.path.join(root, "linkA"))
+        os.symlink("solo.cmake", os.path.join(root, "linksolo.cmake"))
+    os.makedirs(os.path.join(root, "brokentree", "zsub"), exist_ok=True)
+    with open(os.path.join(root, "brokentree", "broken.cmake"), "w") as fh:
+        fh.write("function(f a)\nmessage(\"unterminated\nendfunction()\n(\n")
+    with open(os.path.join(root, "brokentree", "zsub", "fine.cmake"), "w") as fh:
+        fh.write(module_text(51))
 
 
 def read_tree(root):
@@ -64,7 +73,7 @@ def run_process(argv, cwd, home, hashseed=0, perm="sorted", repeat=1, timeout=12
 def settings_file(path):
     with open(path, "w") as fh:
         # several exclude patterns, one negated: gitignore rules are order sensitive, the order must not depend on the process
-        fh.write("input:\n  recursive: true\n  exclude_filters: ['*_gen.cmake', '!keep_gen.cmake', 'zz*', 'notes.txt']\nlogging:\n  version: 1\n")
+        fh.write("input:\n  recursive: true\n  exclude_filters: ['*_gen.cmake', '!keep_gen.cmake', 'zz*', 'notes.txt', 'treeA/aa/', 'locA/treeA/b.cmake']\nlogging:\n  version: 1\n")
 
 
 # ---------------------------------------------------------------- C17
